@@ -126,13 +126,10 @@ def dawson(prog, ctx):
     # small branch
     st_small = st.fork()
     live, done = sx.exec(br['then'], [st_small])
-    ansk = None
-    for s in walk_stmts(fn.body):
-        if s['k'] == 'Return' and s.get('e') is not None:
-            r = strip_casts(s['e'])
-            if r.get('k') == 'Ref':
-                ansk = r['id']
-    small = live[0].env.get(ansk) if live and ansk else None
+    # (canonical IR: every branch ends in its own return; the large-argument branch is what follows the small one)
+    srets = [o for o in done if o.kind == 'return']
+    small = srets[0].value if len(srets) == 1 and not live else None
+    large_body = br['else'] if br.get('else') is not None else {'k': 'Compound', 'body': fn.body['body'][fn.body['body'].index(br) + 1:]}
     okodd = small is not None and is_zero(small + small.subs(x, -x))
     series = x - 2 * x ** 3 / 3 + 4 * x ** 5 / 15 - 8 * x ** 7 / 105
     okser = small is not None and is_zero(small - series)
@@ -156,7 +153,7 @@ def dawson(prog, ctx):
     # large branch: x only through fabs(x) and one Sign(.,x)
     uses = []
     parents = {}
-    for s in walk_stmts(br['else']):
+    for s in walk_stmts(large_body):
         for e in stmt_exprs(s):
             for n in walk_expr(e):
                 if n.get('k') == 'Call':
@@ -171,7 +168,7 @@ def dawson(prog, ctx):
     ctx.decide('C17.c', 'Dawson:odd', fn, bool(even and okodd and oklarge),
                'branch test even in x, small branch odd, large branch uses x only via |x| and Sign(.,x)',
                'oddness by construction fails: test even=%s, small branch odd=%s, uses of x in the large branch=%s' % (even, okodd, uses))
-    rybicki(prog, ctx, fn, br, sx, st, x)
+    rybicki(prog, ctx, fn, large_body, sx, st, x)
     # Round
     rd = prog.fn(L + 'Round', 2, pred=lambda f: f.params[0]['ty'] == 'double')
     sxr, outs = outcomes(prog, rd)
@@ -186,10 +183,10 @@ def dawson(prog, ctx):
                'Round is not odd by construction: %s' % [str(o.value)[:200] for o in main])
 
 
-def rybicki(prog, ctx, fn, br, sx, st, x):
+def rybicki(prog, ctx, fn, large_body, sx, st, x):
     R = 'C17.e'
     stl = st.fork()
-    body = br['else']['body'] if br['else']['k'] == 'Compound' else [br['else']]
+    body = large_body['body'] if large_body['k'] == 'Compound' else [large_body]
     loops = [s for s in body if s['k'] == 'For']
     if len(loops) != 2:
         ctx.undecided(R, 'Dawson:rybicki', fn, 'expected the coefficient loop and the summation loop (found %d loops)' % len(loops))
@@ -377,16 +374,27 @@ def vsh(prog, ctx):
         fn = prog.fn(L + name)
         loops = [s for s in walk_stmts(fn.body) if s['k'] == 'For']
         probs = []
-        if len(loops) != 3:
-            probs.append('expected three nested loops, found %d' % len(loops))
-        else:
+        ln, mn = fn.params[0]['name'], fn.params[1]['name']
+        cs = [c_ for c_ in calls(fn) if (c_.get('callee') or {}).get('q') == L + comp_q]
+        roles = None
+        if len(cs) == 1 and len(cs[0]['args']) == 5:
+            a_ = [strip_casts(x_) for x_ in cs[0]['args']]
+            if all(x_.get('k') == 'Ref' for x_ in a_) and a_[1].get('name') == ln and a_[2].get('name') == mn:
+                roles = {'component': a_[0], 'l_hat': a_[3], 'm_hat': a_[4]}
+        if roles is None:
+            probs.append('coefficient call is %s, expected %s(component, %s, %s, l_hat, m_hat)' % ([show(c_) for c_ in cs], comp_q, ln, mn))
+        by_id = {s_['init']['decls'][0]['id']: s_ for s_ in loops if s_.get('init') and s_['init'].get('k') == 'Decl' and len(s_['init']['decls']) == 1}
+        if roles is not None and (len(loops) != 3 or any(roles[r_]['id'] not in by_id for r_ in roles)):
+            probs.append('expected three nested loops over the component, l_hat and m_hat (found %d loops)' % len(loops))
+        elif roles is not None:
             from ..guards import CEval
             uneval = []
             for (lv, mv) in ((3, 1), (2, 2), (2, -2), (1, 0), (4, -4)):
-                want_sets = [{0, 1, 2}, {lv - 1, lv + 1}, {mv - 1, mv, mv + 1}]
-                for s_, want in zip(loops, want_sets):
+                want_sets = {'component': {0, 1, 2}, 'l_hat': {lv - 1, lv + 1}, 'm_hat': {mv - 1, mv, mv + 1}}
+                for role, want in want_sets.items():
+                    s_ = by_id[roles[role]['id']]
                     d = s_['init']['decls'][0]
-                    row = {'l': lv, 'm': mv}
+                    row = {ln: lv, mn: mv}
                     try:
                         v = CEval(prog, row).ev(d['init'])
                         seen = set()
@@ -403,31 +411,31 @@ def vsh(prog, ctx):
                             else:
                                 raise Undecided('increment ' + show(inc))
                         if seen != want:
-                            probs.append('for (l,m)=(%d,%d) the loop over %s visits %s, expected %s' % (lv, mv, d['name'], sorted(seen), sorted(want)))
+                            probs.append('for (l,m)=(%d,%d) the loop over %s visits %s, expected %s' % (lv, mv, role, sorted(seen), sorted(want)))
                     except (Undecided, KeyError) as e:
                         uneval.append('loop over %s not evaluable: %s' % (d['name'], e))
             if uneval and not probs:
                 ctx.undecided(R, name, fn, '; '.join(sorted(set(uneval))))
                 continue
+            lhn, mhn = roles['l_hat']['name'], roles['m_hat']['name']
             ifs = [s for s in walk_stmts(fn.body) if s['k'] == 'If']
             okf = False
             if len(ifs) == 1:
                 okf = True
                 for lh, mh in itertools.product((0, 1, 2, 3), (-3, -2, -1, 0, 1, 2, 3)):
                     try:
-                        got = CEval(prog, {'l_hat': lh, 'm_hat': mh, 'l': 2, 'm': 0}).ev(ifs[0]['cond'])
+                        got = CEval(prog, {lhn: lh, mhn: mh, ln: 2, mn: 0}).ev(ifs[0]['cond'])
                     except (Undecided, KeyError):
                         okf = False
                         break
                     if bool(got) != (abs(mh) <= lh):
                         okf = False
+                # the coefficient call must be under the filter
+                okf = okf and any(c_ is cs[0] for c_ in calls(ifs[0]['then']))
             if not okf:
                 probs.append('filter |m_hat| <= l_hat missing or different')
-            cs = [c_ for c_ in calls(fn) if (c_.get('callee') or {}).get('q') == L + comp_q]
-            if len(cs) != 1 or [show(strip_casts(a_)) for a_ in cs[0]['args']] != ['i', 'l', 'm', 'l_hat', 'm_hat']:
-                probs.append('coefficient call is %s' % [show(c_) for c_ in cs])
             sh = [c_ for c_ in calls(fn) if (c_.get('callee') or {}).get('q') == L + 'Spherical_Harmonics']
-            if len(sh) != 1 or [show(strip_casts(a_)) for a_ in sh[0]['args']] != ['l_hat', 'm_hat', 'theta', 'phi']:
+            if len(sh) != 1 or [show(strip_casts(a_)) for a_ in sh[0]['args']] != [lhn, mhn, fn.params[2]['name'], fn.params[3]['name']]:
                 probs.append('basis function call is %s' % [show(c_) for c_ in sh])
         ctx.decide(R, name, fn, not probs, 'sums coefficient(i,l,m,lhat,mhat)*Y_{lhat,mhat} over lhat in {l-1,l+1}, mhat in {m-1,m,m+1}, |mhat|<=lhat',
                    '; '.join(probs))
